@@ -25,10 +25,10 @@ Definition popts_eqb (a b : popts) : bool :=
    (10 + constructor error kind | format error kind) *)
 Inductive fout := Line (s : bytes) | Throws (code : N).
 
-Definition format_with (apply_spec : bytes -> bytes -> bytes) (o : popts) (st : stmt) : fout :=
-  match generate (po_pattern o) with
+Definition format_with (v : pvar) (apply_spec : bytes -> bytes -> bytes) (o : popts) (st : stmt) : fout :=
+  match generate v (po_pattern o) with
   | GErr e => Throws (10 + gerr_code e)
-  | GOk g => match format apply_spec g st with
+  | GOk g => match format v apply_spec g st with
              | FOk s => Line s
              | FErr e => Throws (ferr_code e)
              end
@@ -79,13 +79,13 @@ Fixpoint write_sinks (hoist : bool) (fmt : popts -> fout) (lv : N) (m stmt_line 
   end.
 
 (* _write_log_statement for one message line *)
-Definition write_log_statement (hoist : bool) (apply_spec : bytes -> bytes -> bytes) (lo : popts)
-                               (sinks : list sink) (st : stmt) (lv : N) (m : bytes)
+Definition write_log_statement (hoist : bool) (v : pvar) (apply_spec : bytes -> bytes -> bytes)
+                               (lo : popts) (sinks : list sink) (st : stmt) (lv : N) (m : bytes)
   : list wr * option N :=
   let st' := with_msg st m in
-  match format_with apply_spec lo st' with
+  match format_with v apply_spec lo st' with
   | Throws c => ([], Some c)
-  | Line s => write_sinks hoist (fun o => format_with apply_spec o st') lv m s s sinks
+  | Line s => write_sinks hoist (fun o => format_with v apply_spec o st') lv m s s sinks
   end.
 
 (* the loop over the message lines: an exception ends it *)
@@ -101,11 +101,12 @@ Fixpoint write_msgs (f : bytes -> list wr * option N) (ms : list bytes) : list w
 
 (* _dispatch_transit_event_to_sinks: the multi-line choice reads the options of the LOGGER's
    formatter (the add_metadata_to_multi_line_logs of a sink's override options is never read) *)
-Definition dispatch_event (hoist : bool) (apply_spec : bytes -> bytes -> bytes) (lo : popts)
-                          (sinks : list sink) (st : stmt) (lv : N) : list wr * option N :=
+Definition dispatch_event (hoist : bool) (v : pvar) (apply_spec : bytes -> bytes -> bytes)
+                          (lo : popts) (sinks : list sink) (st : stmt) (lv : N)
+  : list wr * option N :=
   match dispatch_msgs (po_add_meta lo) (s_nargs st) (s_msg st) with
   | None => ([], Some 99%N)                              (* out of fuel: never (PatProofs) *)
-  | Some ms => write_msgs (write_log_statement hoist apply_spec lo sinks st lv) ms
+  | Some ms => write_msgs (write_log_statement hoist v apply_spec lo sinks st lv) ms
   end.
 
 (* what one sink was handed *)
@@ -115,7 +116,8 @@ Definition lines_for (id : N) (w : list wr) : list bytes :=
 (* ---------------------------------------------------------------------------------------------
    encoded entry point for the extracted runner
 
-   patd <hoist> <nsinks> sink* <nloggers> logger* <nstmts> statement* <table>
+   patd <h> <nsinks> sink* <nloggers> logger* <nstmts> statement* <table>
+     h         := hoist + 2 * pv_esc + 4 * pv_bits   (see patd_variant)
      sink      := (0 | 1 <pattern> <add_meta>) <min_level> (0 | 1 <byte> | 2 <byte>)
                   filter 1: reject when the message line contains <byte>
                   filter 2: reject when the logger's statement contains <byte>
@@ -209,7 +211,7 @@ Fixpoint pick_sinks (all : list sink) (ix : list N) : list sink :=
 
 (* the statements in order: the writes, one threw-flag per statement, and the options of the
    formatters created so far (one per logger that has dispatched an event) *)
-Fixpoint run_stmts (hoist : bool) (apply_spec : bytes -> bytes -> bytes) (all : list sink)
+Fixpoint run_stmts (hoist : bool) (v : pvar) (apply_spec : bytes -> bytes -> bytes) (all : list sink)
                    (loggers : list dlogger) (existing : list popts) (sts : list dstmt)
   : list wr * list N :=
   match sts with
@@ -218,16 +220,21 @@ Fixpoint run_stmts (hoist : bool) (apply_spec : bytes -> bytes -> bytes) (all : 
     match nth_error loggers (N.to_nat (ds_logger d)), ds_stmt d with
     | Some lg, Some st =>
       let lo := logger_formatter existing (dl_opts lg) in
-      let '(w, t) := dispatch_event hoist apply_spec lo (pick_sinks all (dl_sinks lg)) st (ds_level d) in
-      let '(w', e') := run_stmts hoist apply_spec all loggers (lo :: existing) r in
+      let '(w, t) := dispatch_event hoist v apply_spec lo (pick_sinks all (dl_sinks lg)) st (ds_level d) in
+      let '(w', e') := run_stmts hoist v apply_spec all loggers (lo :: existing) r in
       (w ++ w', (match t with Some _ => 1%N | None => 0%N end) :: e')
     | _, _ =>
-      let '(w', e') := run_stmts hoist apply_spec all loggers existing r in (w', 8%N :: e')
+      let '(w', e') := run_stmts hoist v apply_spec all loggers existing r in (w', 8%N :: e')
     end
   end.
 
 Definition enc_lines (ls : list bytes) : list N :=
   N.of_nat (length ls) :: flat_map enc_bytes ls.
+
+(* the leading number h of a patd line: bit 0 = hoist, bit 1 = pv_esc, h / 4 = pv_bits (0 stands
+   for 16, so that h = 0 / 1 is the pinned code without / with the hoisted declaration) *)
+Definition patd_variant (h : N) : pvar :=
+  {| pv_bits := (if N.eqb (h / 4) 0 then 16 else h / 4)%N; pv_esc := N.odd (h / 2) |}.
 
 Definition patd_run_enc (l : list N) : list N :=
   match l with
@@ -239,7 +246,7 @@ Definition patd_run_enc (l : list N) : list N :=
         match take_counted take_dstmt r2 with
         | Some (sts, r3) =>
           let sinks := number_sinks 0 sinks0 in
-          let '(w, errs) := run_stmts (negb (N.eqb h 0)) (table_lookup (take_tbl r3)) sinks loggers [] sts in
+          let '(w, errs) := run_stmts (N.odd h) (patd_variant h) (table_lookup (take_tbl r3)) sinks loggers [] sts in
           0%N :: N.of_nat (length errs) :: errs ++
           N.of_nat (length sinks) :: flat_map (fun s => enc_lines (lines_for (sk_id s) w)) sinks
         | None => bad_case
